@@ -204,7 +204,7 @@ def _report(desc, ws, res, fails, sites):
                     break
         # a failure that needs the earlier renders of the same object says so in its input
         fresh = [x for x in _layout_eval(cur, [w], [site]) if x[1] == cls] if site != "build" else [1]
-        inp = (cur, w) if fresh else (cur, {"same object rendered at widths": seq})
+        inp = (cur, w) if fresh else (cur, {"same object rendered at widths": seq, "at each width in turn": list(sites), "fails at": site})
         fails.append((site, cls, slug, repr(inp), tb[-500:]))
 
 
@@ -500,6 +500,21 @@ def run(ctx):
                 return f()
         return g
 
+    # Text.__rich_measure__ (Model/TotalityPrint.lean `textRichMeasureE`): white-space-only texts of every kind first
+    import lib_c14 as _L
+
+    full_ws = [chr(c) for c in range(0x110000) if chr(c).isspace()]
+    ctx.check(full_ws == _L.WS, "str.isspace", [hex(ord(c)) for c in full_ws], "lib_c14.WS is not the running Python's white-space set: extend its range")
+    blanks = full_ws + _L.WS_MIX + [a + b for a in full_ws[::3] for b in full_ws[1::4]] + [a + "x" + b for a in full_ws[::5] for b in full_ws[2::6]]
+    con_ms = Console(file=io.StringIO(), width=80, color_system=None)
+    for j, s in enumerate(blanks + todo[:: (4 if quick else 1)]):
+        if len(s) > 300:
+            continue
+        cls, m = observe(lambda: Text(s).__rich_measure__(con_ms, 10 ** 9))
+        ctx.note("text_measure:" + (cls or "ok"))
+        ctx.check(cls is None, "Text.__rich_measure__", s, f"Text({s!r}).__rich_measure__ raised {cls} (documented: measuring never raises)")
+        ctx.case("c14_text_measure", [enc_str(s)], "ok:%d,%d" % (m.minimum, m.maximum) if cls is None else "err:Other:" + cls,
+                 shape="blank" if j < len(blanks) else "seen", sample=f"Text({s!r}).__rich_measure__")
     for i, s in enumerate(todo):
         cls, t = observe(lambda: Text(s))
         ctx.check(cls is None and len(t) == len(t.plain), "Text()", s, f"Text({s!r}) raised {cls} or has len != len(plain)")
@@ -551,7 +566,7 @@ def run(ctx):
         "Color.parse: %d prefixes x every string <= %d over %r + rgb(<every string <= %d over %r>) + listed + seeded random; "
         "Style.parse/normalize: every sequence of <= %d words over %d words + seeded random with Unicode separators; "
         "markup: every string <= %d over %d tokens + every sequence of <= %d tags over %d tags + random; get_style: names x defaults; "
-        "ANSI: every string <= %d over %d tokens; Text()/print(markup=False): all of the above at widths %r, highlighter on/off; "
+        "ANSI: every string <= %d over %d tokens; Text.__rich_measure__: every str.isspace character alone and in pairs + the strings above; Text()/print(markup=False): all of the above at widths %r, highlighter on/off; "
         "layout: every small tree of lib_c14.small_trees (every kind x every boolean/enum option value x small and threshold numeric options, depth <= 2) x widths 1..6 (tables in the quick tier: 1,2,3,5) and =,+-1 around measured min/max and explicit width options; %d seeded random trees (depth <= 4, 15 kinds of renderable) x 3 widths in 1..200 x {render, measure, print}; "
         "distinct = distinct canonical requests to the model"
         % (len(COLOR_PRE), body_n, COLOR_BODY, 5 if quick else 7, RGB_IN, nwords, len(STYLE_WORDS), 3 if quick else 4, len(MARKUP_TOK), 2 if quick else 3, len(MARKUP_TAGS), 3 if quick else 4, len(ANSI_TOK), widths, n_workers * per)
@@ -575,7 +590,8 @@ MANIFEST = {
     "stack, any default).  (2) decode_total (C19's decoder model, intRaises=false: every string decodes, any carried style); "
     "text_ctor_total (every string incl. control characters constructs a consistent Text); wrap_total (Text.wrap never raises and returns "
     "consistent lines at EVERY width incl. 0 and 1, every width function, every justify/overflow/no_wrap, every tab size >= 1 - needs the "
-    "new divideLine_weak: the offsets of divide_line are ascending and inside the text at any width); text_render_total; "
+    "new divideLine_weak: the offsets of divide_line are ascending and inside the text at any width); text_render_total; text_measure_total (Text.__rich_measure__ never reaches max() of an empty sequence provided the "
+    "blank-text guard strips every character str.split() splits on - in rich both are str.isspace); "
     "print_plain_total (Console.print(s, markup=False): render_str -> emoji -> highlighter (parameter with contract: spans inside [0,len]) "
     "-> join -> Text.__rich_console__ -> crop never raises, any string, any width).  (3) layout_total over the inductive type R of "
     "renderable trees of Model/Layout.lean (C01/C09): for valid options (consistent texts, padding an int or a 1/2/4-tuple; everything "
